@@ -514,6 +514,29 @@ def pred_malvar_ramp(inp):
     return True, 'ok'
 
 
+def pred_superres(inp):
+    """assemble_superresolved (sub-pixel registration of the four planes by Fourier shifts) conserves the signal of every colour:
+    channel totals are those of r, (g1 + g2) / 2, b; with zoomfactor 0 nothing moves at all; the planes are not modified"""
+    by = _impl()[1]
+    planes = [np.asarray(p, dtype=float) for p in inp['planes']]
+    keep = [p.copy() for p in planes]
+    z = inp['zoom']
+    out = by.assemble_superresolved(*planes, z)
+    if any(not np.array_equal(p, k) for p, k in zip(planes, keep)):
+        return False, 'assemble_superresolved modified its input planes'
+    r, g1, g2, b = planes
+    if out.shape != r.shape + (3,):
+        return False, f'shape {out.shape}'
+    want = [r.sum(), (g1.sum() + g2.sum()) / 2, b.sum()]
+    got = [out[..., k].sum() for k in range(3)]
+    scale = max(abs(p).sum() for p in planes) + 1.0
+    if any(abs(a - w) > 1e-10 * scale for a, w in zip(got, want)):
+        return False, f'zoomfactor {z}: channel totals {got} differ from the totals of r, (g1+g2)/2, b = {want}'
+    if z == 0 and not np.allclose(out, np.stack([r, (g1 + g2) / 2, b], axis=2), rtol=0, atol=1e-10 * scale):
+        return False, 'zoomfactor 0 moves samples'
+    return True, 'ok'
+
+
 def pred_wb(inp):
     by = _impl()[1]
     img = np.asarray(inp['img'], dtype=float)
@@ -735,7 +758,7 @@ def _layout_cases(rng, m, n, quick):
 PREDS = {'dn_range': pred_dn_range, 'dn_monotone': pred_dn_monotone, 'dn_formula': pred_dn_formula, 'dn_frames': pred_dn_frames, 'dn_lut': pred_dn_lut,
          'bin': pred_bin, 'tile': pred_tile, 'bin_tile_adjoint': pred_adjoint, 'expose_bin': pred_expose_bin, 'bayer_roundtrip': pred_bayer_roundtrip,
          'bayer_composite': pred_bayer_composite, 'malvar_native': pred_malvar_native, 'malvar_constant': pred_malvar_constant,
-         'malvar_colour': pred_malvar_colour, 'malvar_ramp': pred_malvar_ramp,
+         'malvar_colour': pred_malvar_colour, 'malvar_ramp': pred_malvar_ramp, 'superres': pred_superres,
          'wb_prescale': pred_wb, 'wb_safe': pred_wb_safe, 'wb_postscale': pred_wb_post, 'dn_real_rng': pred_dn_real_rng,
          'expose_draws': pred_expose_draws, 'mode_spellings': pred_mode_spellings, 'layouts': pred_layouts}
 
@@ -1184,6 +1207,37 @@ def correspondence(ctx):
                        {'shape': [m // 2, n // 2, 3], 'gains': g3, 'hot': hot}, True, f'hot{hot}')
             _check(ctx, 'malvar_constant', {'shape': [m, n], 'cfa': cfa, 'level': 137.5}, {'shape': [m, n], 'cfa': cfa}, True, cfa)
 
+    # assemble_superresolved: totals of every colour conserved (integer and fractional shifts, odd and even planes)
+    for (m, n) in ((4, 4), (5, 6), (7, 5), (8, 8)):
+        for z in (0, 1, 2, 3, 1.5):
+            pl = [rng.integers(0, 999, size=(m, n)).astype(float) for _ in range(4)]
+            _check(ctx, 'superres', {'planes': [p.tolist() for p in pl], 'zoom': z}, {'shape': [m, n], 'zoom': z}, True, f'zoom{z}')
+    # shapes of the bindown / tile views and of the exposure (translated terms) against NumPy's own reshape / broadcast
+    for (shape, f) in BIN_SHAPES:
+        fl = [f] * len(shape) if isinstance(f, int) else list(f)
+
+        def chk(row, shape=shape, fl=fl):
+            got = [int(t) for t in row.split()]
+            d = len(shape)
+            ctx.case('views', {'shape': list(shape), 'factor': fl}, tag=f'{d}d')
+            a = np.zeros(shape)
+            want_bin = [x for s_, k in zip(shape, fl) for x in (s_ // k, k)]
+            want_tile = [x for s_, k in zip(shape, fl) for x in (s_, k)]
+            ok = got == want_bin + want_tile and a.reshape(got[:2 * d]).sum(axis=tuple(range(1, 2 * d, 2))).shape == det.bindown(a, fl, 'sum').shape \
+                and np.broadcast_to(a[tuple(x for s_ in shape for x in (slice(s_), None))], got[2 * d:]).size == det.tile(a, fl).size
+            if not ok:
+                ctx.disagree('views', {'shape': list(shape), 'factor': fl}, f'{want_bin + want_tile}', f'{got}')
+        ask(f'binview {len(shape)} {_il(shape)} {_il(fl)}', chk)
+    for frames in (1, 2, 3):
+        for shape in ((5,), (3, 4), (2, 3, 2)):
+            def chk(row, frames=frames, shape=shape):
+                got = tuple(int(t) for t in row.split())
+                ctx.case('expose.outshape', {'frames': frames, 'shape': list(shape)}, tag=f'frames{frames}/{len(shape)}d')
+                cfg = {'dc': 0.0, 'bias': 0.0, 'fwc': 1e15, 'gain': 1.0, 'bits': 12, 't': 1.0, 'prnu': None, 'dcnu': None}
+                out = _expose(cfg, np.ones(shape), frames)
+                if out.shape != got:
+                    ctx.disagree('expose.outshape', {'frames': frames, 'shape': list(shape)}, f'{out.shape}', f'{got}')
+            ask(f'exposeshape {frames} {_il(shape)}', chk)
     # Malvar on mosaics of ONE colour (hypotheses of theorem malvar_uniform_colour: an interior exists, m, n >= 5): the predicate
     # on the real code, and the same mosaic through the model (all samples, border included)
     for (m, n) in COLOUR_SHAPES[:(None if ctx.thorough else 6)]:
@@ -1330,6 +1384,12 @@ def search(ctx, hints):
                 ok, detail = _run_pred(name, inp)
                 if not ok:
                     return found(name, inp, detail)
+    for z in (1, 2):
+        pl = [(np.arange(20.0).reshape(4, 5) * (k + 1)) % 7 for k in range(4)]
+        inp = {'planes': [p.tolist() for p in pl], 'zoom': z}
+        ok, detail = _run_pred('superres', inp)
+        if not ok:
+            return found('superres', inp, detail)
     for (m, n) in COLOUR_SHAPES[:4]:
         for cfa in ('rggb', 'bggr'):
             for col in ([100.0, 10.0, 1.0], [3.0, 50.0, 700.0]):
@@ -1350,7 +1410,7 @@ def replay(inp):
     if name not in PREDS:
         print('no replay routine for item', name)
         return False
-    brief = {k: v for k, v in inp.items() if k in ('cfg', 'factor', 'cfa', 'frames', 'gains', 'saturation', 'shape', 'level', 'colour', 'slope', 'dtype', 'seed', 'kind', 'fn', 'layouts', 'maps', 'lut')}
+    brief = {k: v for k, v in inp.items() if k in ('cfg', 'factor', 'cfa', 'frames', 'gains', 'saturation', 'shape', 'level', 'colour', 'slope', 'zoom', 'dtype', 'seed', 'kind', 'fn', 'layouts', 'maps', 'lut')}
     print(f'replaying {name}: {brief}')
     if name.startswith('dn_') and name != 'dn_real_rng':
         try:
@@ -1386,7 +1446,9 @@ MANIFEST_ENTRY = {
              'inspected plane above its saturation level. TRANSLATED each run: ADC ceiling, container-width chain, the clip / gain / '
              'clip chain of expose statement by statement (nothing but shape handling / lut / return may follow the cast), '
              'bindown/tile shape formulas, reduction axes, scale factors, Bayer slices and plane/site/gain tables (pre and post), '
-             'Malvar source table, kernels, divisor, the green average of demosaic_deinterlace (as a term), the safe-limiting loop step. RECOGNISER FACTS only (no Lean content): output '
+             'the interleaved view shapes of bindown / tile, both mode tables, the shape expose returns, the boundary rule of the Malvar '
+             'filters (terms with obligations; proved: factors sit on the odd = reduced / broadcast axes, frames x prod(shape) samples, '
+             'interior Malvar samples independent of the boundary rule), Malvar source table, kernels, divisor, the green average of demosaic_deinterlace (as a term), the safe-limiting loop step. RECOGNISER FACTS only (no Lean content): output '
              'shape (frames, *image.shape), interleaved views, mode tables, planes inspected / per-plane saturation / gains divided. '
              'MODELLED AND COMPARED (driver runs the HAND model): exposure on doubles (DN exact, bits 1..32, maps, frames, 1-D..4-D '
              'images), container rejection for bits > 32, N-D binning/tiling on floats and on uint8/16/32, int8/16/32, bool arrays '
@@ -1396,7 +1458,8 @@ MANIFEST_ENTRY = {
              '(range, dtype, shape, 8-sigma band) and a recording of what is asked of the RNG (rate, sigma, sizes); '
              'demosaic_deinterlace, wb_postscale and the descaling ratio of safe white balance (pre and post, scalar and per-plane '
              'saturation) against the model on rationals; Malvar on one-colour mosaics (5x5..16x16, odd shapes); Detector(lut=...) '
-             'for bits <= 14 (identity, permutation and float tables, 1 and 3 frames): exposure = lut[DN without lut].'),
+             'for bits <= 14 (identity, permutation and float tables, 1 and 3 frames): exposure = lut[DN without lut]; '
+             'assemble_superresolved: channel totals conserved (predicate only).'),
     'note': ('Trusted: the unsigned cast of an in-range double is floor; NumPy reshape/broadcast/ndimage.convolve semantics '
              '(compared); 64-bit accumulation of integer sums. Not covered: the distribution of the random draws, '
              'assemble_superresolved, safe white balance with non-unit gains (nothing is promised by the code).'),
